@@ -246,3 +246,65 @@ def ob_mode_equivalence(n: int, o0: int, o1: int, o2: int, o3: int, reuse: bool)
     # everything below receives concrete values only (the script was fixed by the forks above)
     with untraced():
         return _run_script(n, ops, reuse)
+
+
+# ------------------------------------------------------------------------------------------------ long tick logs (paging)
+# stream_ticks() reads the log page by page (_TICK_PAGE_SIZE rows); it is the replay path of a resumed run.  The op scripts above
+# never get near a second page, and their driver has no event loop (a store that hands a page read to a worker thread would fail
+# alike in both modes there).  Here the stores run on a REAL asyncio event loop, as in the server.
+
+import asyncio  # noqa: E402
+
+from llama_agents.server._store.sqlite import sqlite_workflow_store as _sws  # noqa: E402
+
+_PAGE = _sws._TICK_PAGE_SIZE
+_NTICKS = [0, 1, _PAGE - 1, _PAGE, _PAGE + 1, 2 * _PAGE - 1, 2 * _PAGE, 2 * _PAGE + 1]
+
+
+async def _paging(store: SqliteWorkflowStore, n: int, extra_run: bool):
+    for i in range(n):
+        await store.append_tick("r0", {"i": i})
+        if extra_run and i % 7 == 0:
+            await store.append_tick("r1", {"other": i})     # rows of another run interleaved in the table
+    streamed = [_tick_key(t) async for t in store.stream_ticks("r0")]
+    got = [_tick_key(t) for t in await store.get_ticks("r0")]
+    return streamed, got
+
+
+def _observe_paging(store: SqliteWorkflowStore, n: int, extra_run: bool):
+    loop = asyncio.new_event_loop()
+    try:
+        return ("ok", loop.run_until_complete(_paging(store, n, extra_run)))
+    except Exception as e:  # noqa: BLE001
+        return ("exc", type(e).__name__)
+    finally:
+        loop.close()
+
+
+@obligation(quick=200, thorough=400,
+            what="tick logs around the page boundaries of stream_ticks (0, 1, P-1, P, P+1, 2P-1, 2P, 2P+1 ticks, P = _TICK_PAGE_SIZE, optionally "
+                 "with another run's rows interleaved), on a real asyncio event loop: stream_ticks and get_ticks return every tick once, in "
+                 "order, identically with single_connection=True and with per-call connections",
+            bounds={"ticks": "8 lengths around 0, P, 2P", "other run interleaved": "yes / no"})
+def ob_tick_pages(sel: int, extra_run: bool) -> bool:
+    """
+    pre: 0 <= sel < len(_NTICKS)
+    post: _
+    """
+    n = _NTICKS[pick_int(sel, 0, len(_NTICKS) - 1)]
+    extra_run = True if extra_run else False
+    with untraced():
+        with TmpDir() as d:
+            single = SqliteWorkflowStore(os.path.join(d, "single.db"), single_connection=True)
+            percall = SqliteWorkflowStore(os.path.join(d, "percall.db"))
+            try:
+                a = _observe_paging(single, n, extra_run)
+                b = _observe_paging(percall, n, extra_run)
+            finally:
+                try:
+                    if single._persistent_conn is not None:
+                        single._persistent_conn.close()
+                except Exception:  # noqa: BLE001
+                    pass
+        want = [("r0", i, freeze({"i": i})) for i in range(n)]
+        return a == b and a == ("ok", (want, want))
